@@ -1,5 +1,6 @@
 import AslProofs.IniHistory
 import AslProofs.CsvQ
+import AslProofs.CsvTable
 import AslProps.C18Spec
 /-!
 # C18 — IniFile and TabularDataFile persist exactly what was set or written: property theorems
@@ -16,7 +17,7 @@ open AslModel.Ini hiding Bytes
 open AslModel.Csv (Cell Dec parseRow writeRow isNumber atofDec)
 open C18Spec hiding Bytes
 open AslProofs.Ini (Op run setsOf path AnyOp anyRun SameLine Pointwise)
-open AslProofs.Csv (cellText CellOK numValue decValue)
+open AslProofs.Csv (cellText CellOK numValue decValue ColOK StrOK NumText CellWF expected)
 
 abbrev Bytes := List UInt8
 
@@ -124,6 +125,22 @@ theorem csv_row_roundtrip (sep : UInt8) (hsep : sep ≠ 34) (c : Cell) (t : List
 /-- e.g. the row `he said "hi", (empty), a;b` with separator `,` -/
 example : parseRow 44 (writeRow 44 34 [.str [104, 34, 105, 44], .str [], .str [97, 59, 98]])
     = [[104, 34, 105, 44], [], [97, 59, 98]] := by decide
+
+/-- **csv_table_roundtrip.**  For every non-empty list of identifier column names and every table whose rows have
+    one cell per column — cells being strings without line breaks that do not spell a number (any mix of
+    `, ; " '` and blanks, empty strings; the file format cannot tell a string that spells a number from the
+    number) and number texts — the file written by `columns(cols)` followed by `<<` of every cell, read by a
+    fresh `TabularDataFile`, gives back the column names and, row for row and cell for cell, the strings
+    written and, for the numbers, `myatof` of the text written (whose exact value is `csv_number_exact_Q`). -/
+theorem csv_table_roundtrip (cols : List Bytes) (hne : cols ≠ []) (hcols : ∀ n ∈ cols, ColOK n)
+    (rows : List (List Cell)) (hrows : ∀ r ∈ rows, r.length = cols.length ∧ ∀ c ∈ r, CellWF c) :
+    Csv.readTable (Csv.writeTable cols rows.flatten) = { columns := cols, rows := rows.map (·.map expected) } :=
+  AslProofs.Csv.table_roundtrip cols hne hcols rows hrows
+
+/-- the column name `x` and the string cell `a,"b` meet the hypotheses -/
+example : ColOK [120] ∧ CellWF (.str [97, 44, 34, 98]) := by
+  refine ⟨⟨?_, 120, [], rfl, by decide⟩, by decide, by decide, by decide, by decide⟩
+  intro c hc; simp at hc; subst hc; decide
 
 /-- **csv_number_exact_Q.**  Every number text `[-]digits[.digits][(e|E)[+|-]digits]` (in particular every
     `%.15g` output) is recognised as a number by `myisnumber`, and the rational number `± y1 · 10^exp` that
